@@ -116,7 +116,7 @@ def net_config_for(kind, family):
     cfg = {"encoder_config": enc}
     if kind == "full":
         cfg["head_config"] = {"hidden_size": [5]}
-        cfg["latent_dim"] = 4
+        cfg["latent_dim"] = 8
     return cfg
 
 
@@ -393,7 +393,8 @@ def _opt_list(w):
     return list(w.optimizer) if isinstance(w.optimizer, list) else [w.optimizer]
 
 
-EXT_SKIP = {"observation_space", "action_space", "observation_spaces", "action_spaces"}
+# expl_noise / mean_noise: read-only configuration arrays of DDPG/TD3/MADDPG/MATD3 (never written in place)
+EXT_SKIP = {"observation_space", "action_space", "observation_spaces", "action_spaces", "expl_noise", "mean_noise"}
 
 
 def slots(agent):
@@ -401,7 +402,11 @@ def slots(agent):
     out = []
     for n in net_names(a):
         enc, head, hid, cfg = _net_slots(n, getattr(a, n))
-        for cls, items in (("enc", enc), ("head", head), ("hid", hid)):
+        henc = [x for x in hid if _is_enc(x[0])]
+        # constants rebuilt by the constructor (action bounds, Rainbow support) are read-only and are aliased or not
+        # depending on how the network object was made (deepcopy vs constructor): they are not slots
+        const = []
+        for cls, items in (("enc", enc), ("head", head), ("henc", henc), ("const", const)):
             for name, t in items:
                 out.append((name, cls, ("T", t.data_ptr()), _fp_tensor(t)))
         for name, lst in cfg:
@@ -426,11 +431,22 @@ def slots(agent):
         v = getattr(a, n)
         out.append((n, "book", ("O", id(v)), _fp_obj(v)))
     attrs = EvolvableAlgorithm.inspect_attributes(a)
+    # a constant / ext tensor that is the same storage as an earlier slot of this agent is the same cell: listed once
+    seen_ptr, dedup = set(), []
+    for s_ in out:
+        if s_[1] in ("const", "ext") and s_[2] in seen_ptr:
+            continue
+        seen_ptr.add(s_[2])
+        dedup.append(s_)
+    out = dedup
     for n in sorted(attrs):
         v = attrs[n]
         if n in EXT_SKIP or n in ("scores", "fitness", "steps"):
             continue
         if isinstance(v, torch.Tensor) and v.numel() > 0:
+            if ("T", v.data_ptr()) in seen_ptr:
+                continue
+            seen_ptr.add(("T", v.data_ptr()))
             out.append((f"attr.{n}", "ext", ("T", v.data_ptr()), _fp_tensor(v)))
         elif isinstance(v, np.ndarray) and v.size > 0:
             out.append((f"attr.{n}", "ext", ("A", v.__array_interface__["data"][0]), _fp_obj(v.tolist())))
@@ -489,26 +505,33 @@ def structure(agent):
     for n in net_names(a):
         enc, head, hid, cfg = _net_slots(n, getattr(a, n))
         params = [p for m in _modules_of(getattr(a, n)) for p in getattr(m, "_orig_mod", m).parameters()]
-        nets[n] = {"enc": len(enc), "head": len(head), "hid": len(hid), "cfg": len(cfg), "arch": arch_descr(a, n),
-                   "param_ids": [id(p) for p in params]}
+        nhenc = sum(1 for x in hid if _is_enc(x[0]))
+        nets[n] = {"enc": len(enc), "head": len(head), "henc": nhenc, "const": 0, "cfg": len(cfg),
+                   "arch": arch_descr(a, n), "param_ids": [id(p) for p in params]}
     opts = OrderedDict()
     for oc in a.registry.optimizers:
         w = getattr(a, oc.name)
-        refs, lrs, nstate = [], [], 0
+        refs, lrs, nstate, ref_ptrs = [], [], 0, []
         for o in _opt_list(w):
             for gr in o.param_groups:
                 lrs.append(float(gr["lr"]))
                 for p in gr["params"]:
                     refs.append(id(p))
+                    if p.numel() > 0:
+                        ref_ptrs.append(p.data_ptr())
                     nstate += sum(1 for v in o.state.get(p, {}).values() if isinstance(v, torch.Tensor))
         want = []
         for nn_ in oc.networks:
             want += nets[nn_]["param_ids"] if nn_ in nets else []
         opts[oc.name] = {"nets": list(oc.networks), "lr_name": oc.lr, "lrs": lrs, "wrapper_lr": float(w.lr),
                          "attr_lr": float(getattr(a, oc.lr)), "nstate": nstate, "refs_ok": refs == want,
-                         "nrefs": len(refs)}
+                         "nrefs": len(refs), "ref_ptrs": ref_ptrs}
     hc = a.registry.hp_config
-    hps = OrderedDict((n, getattr(a, n)) for n in (hc.names() if hc else []))
+    hp_names = list(hc.names() if hc else [])
+    for oc in a.registry.optimizers:
+        if oc.lr not in hp_names:
+            hp_names.append(oc.lr)
+    hps = OrderedDict((n, getattr(a, n)) for n in hp_names)
     for n in list(hps):
         v = hps[n]
         hps[n] = float(v) if isinstance(v, (int, float, np.integer, np.floating)) else str(v)
@@ -549,3 +572,202 @@ def classes(values):
 def snapshot(pop):
     """per agent: slots (name, cls, ptr, fp) and structure"""
     return [{"slots": all_slots(ag), "struct": structure(ag)} for ag in pop]
+
+
+# ------------------------------------------------------------------------------------------ operations on real populations
+MUT_KINDS = ["none", "arch", "param", "act", "hp"]
+
+
+def apply_mutation(agent, kind, seed):
+    """Mutations.mutation on ONE individual with the mutation kind forced (probability 1 on that kind).
+    Returns the (possibly new) individual."""
+    from agilerl.hpo.mutation import Mutations
+    p = {k: 0 for k in MUT_KINDS}
+    p[kind] = 1
+    m = Mutations(no_mutation=p["none"], architecture=p["arch"], new_layer_prob=0.3, parameters=p["param"],
+                  activation=p["act"], rl_hp=p["hp"], mutation_sd=0.1, rand_seed=int(seed) % 100000, device="cpu")
+    seed_all(int(seed) + 4242)
+    out = m.mutation([agent], pre_training_mut=False)
+    return out[0]
+
+
+def apply_select(pop, draws, elitism=True, tournament_size=2):
+    """TournamentSelection.select with scripted tournaments: tournament k draws index draws[k] tournament_size
+    times, so its winner is draws[k] whatever the ranking; the agents' last fitness (distinct values) decides the elite.
+    Returns (new population + [elite], elite index in the old population)."""
+    import agilerl.hpo.tournament as T
+    ts = T.TournamentSelection(tournament_size, elitism, len(draws) + (1 if elitism else 0), 1)
+    it = iter(draws)
+    orig = np.random.randint
+
+    def fake(lo, hi=None, size=None, **kw):
+        d = next(it)
+        return np.array([d] * int(size), dtype=np.int64)
+    np.random.randint = fake
+    try:
+        elite, new_pop = ts.select(pop)
+    finally:
+        np.random.randint = orig
+    best = max(range(len(pop)), key=lambda i: np.mean(unwrap(pop[i]).fitness[-1:]))
+    return list(new_pop) + [elite], best
+
+
+def apply_score(agent, x):
+    a = unwrap(agent)
+    a.scores.append(float(x))
+    a.fitness.append(float(x))
+    a.steps[-1] += 5
+    a.steps.append(a.steps[-1])
+
+
+# ------------------------------------------------------------------------------------------ Coq emission
+CLS_ID = {"enc": 0, "head": 1, "henc": 2, "const": 3, "cfg": 4, "ost": 5, "reg": 6, "book": 7, "ext": 8}
+ACT_SKIP = ["PPO", "DDPG", "TD3", "IPPO", "MADDPG", "MATD3"]
+
+
+def _q(x):
+    from fractions import Fraction
+    f = Fraction(float(x))
+    return f"(({f.numerator})#{f.denominator})%Q" if f.numerator < 0 else f"({f.numerator}#{f.denominator})%Q"
+
+
+def _nl(xs):
+    return "[" + "; ".join(str(int(x)) for x in xs) + "]"
+
+
+class Tables:
+    """per-case numbering of names, labels, architecture descriptors, value fingerprints"""
+
+    def __init__(self):
+        self.names, self.labels, self.archs, self.vals = {}, {None: 0, "None": 1}, {}, {}
+
+    @staticmethod
+    def _id(tab, k, start=1):
+        if k not in tab:
+            tab[k] = len(tab) + start
+        return tab[k]
+
+    def name(self, n):
+        return self._id(self.names, n)
+
+    def label(self, m):
+        return self._id(self.labels, m, 0)
+
+    def arch(self, d):
+        return self._id(self.archs, d)
+
+    def val(self, fp):
+        return self._id(self.vals, fp)
+
+
+def block_layout(snap_agent, reg, tab):
+    """[(key, [slot indices])] in canonical order for one agent snapshot ({"slots":..., "struct":...})"""
+    sl = snap_agent["slots"]
+    owners = []
+    for n in snap_agent["struct"]["nets"]:
+        for c in ("enc", "head", "henc", "const", "cfg"):
+            owners.append(((tab.name(n), CLS_ID[c]), n, c))
+    for o in snap_agent["struct"]["opts"]:
+        owners.append(((tab.name(o), 5), o, "ost"))
+    owners += [((0, 6), None, "reg"), ((0, 7), None, "book"), ((0, 8), None, "ext")]
+    out = []
+    pos = 0
+    for key, owner, c in owners:
+        idx = []
+        while pos < len(sl) and sl[pos][1] == c and _slot_owner(sl[pos][0], c) == owner:
+            idx.append(pos)
+            pos += 1
+        out.append((key, idx))
+    assert pos == len(sl), f"slot order does not follow the canonical layout at {sl[pos][0] if pos < len(sl) else None}"
+    return out
+
+
+def _slot_owner(slot_name, cls):
+    if cls in ("reg", "book", "ext"):
+        return None
+    base = slot_name.split(".")[0]
+    return base.split("[")[0]
+
+
+def coq_registry(reg, tab, algo):
+    def hook(h):
+        if h == "init_hook":
+            g = reg["groups"][0]
+            return f"HSync {tab.name(g['eval'])} {tab.name(g['shared'][0])}"
+        if h == "share_encoder_parameters":
+            return "HShare {} {}".format(tab.name(reg["policy"]), _nl(tab.name(x) for x in reg["share_others"]))
+        if h == "init_params":
+            return "HBandit"
+        raise ValueError(f"mutation hook {h!r} has no model")
+    gs = "; ".join("mkGroup {} {} {}".format(tab.name(g["eval"]), _nl(tab.name(x) for x in g["shared"]),
+                                             "true" if g["policy"] else "false") for g in reg["groups"])
+    os_ = "; ".join("mkOptCfg {} {} {}".format(tab.name(o["name"]), _nl(tab.name(x) for x in o["nets"]), tab.name(o["lr"]))
+                    for o in reg["opts"])
+    hs = "; ".join(hook(h) for h in reg["hooks"])
+    hp = _nl(tab.name(h) for h in reg["hps"])
+    return f"(mkReg [{gs}] [{os_}] [{hs}] {hp} {'true' if algo in ACT_SKIP else 'false'})"
+
+
+def registry_plus(agent):
+    """registry_of + which networks the share hook redirects (those holding hidden encoder copies, or, for a
+    freshly built agent, every non-policy network named by the algorithm's share_encoder_parameters)"""
+    a = unwrap(agent)
+    reg = registry_of(a)
+    pol = [g["eval"] for g in reg["groups"] if g["policy"]]
+    reg["policy"] = pol[0] if pol else None
+    st = structure(a)
+    reg["share_others"] = [n for n, d in st["nets"].items() if d["henc"] > 0]
+    return reg
+
+
+def coq_agent(snap_agent, reg, tab, locs, regterm):
+    """locs: list of location numbers, one per slot of this agent"""
+    st = snap_agent["struct"]
+    lay = block_layout(snap_agent, reg, tab)
+    blocks = "; ".join(f"(({k[0]}, {k[1]}), {_nl(locs[i] for i in idx)})" for k, idx in lay)
+    ptr2loc = {tuple(snap_agent["slots"][i][2]): locs[i] for i in range(len(locs))}
+    opts = []
+    for o, d in st["opts"].items():
+        refs = [ptr2loc.get(("T", p), 999999) for p in d["ref_ptrs"]]
+        opts.append(f"mkOpt {tab.name(o)} {_q(d['lrs'][0])} {_nl(refs)}")
+    arch = "; ".join(f"({tab.name(n)}, {tab.arch(d['arch'])})" for n, d in st["nets"].items())
+    hps = "; ".join(f"({tab.name(n)}, {_q(v)})" for n, v in st["hps"].items())
+    return (f"(mkAgent {st['index']} {tab.label(st['mut'])} [{arch}] [{'; '.join(opts)}] [{hps}] {regterm} [{blocks}])")
+
+
+def coq_aobs(snap_agent, reg, tab):
+    st = snap_agent["struct"]
+    lay = block_layout(snap_agent, reg, tab)
+    archs = _nl(tab.arch(d["arch"]) for d in st["nets"].values())
+    opts = "; ".join("({}, {})".format("true" if d["refs_ok"] else "false", _q(d["lrs"][0])) for d in st["opts"].values())
+    hps = "; ".join(_q(v) for v in st["hps"].values())
+    counts = "[" + "; ".join(f"{len(idx)}%nat" for _, idx in lay) + "]"
+    return f"(mkAObs {st['index']} {tab.label(st['mut'])} {archs} [{opts}] [{hps}] {counts})"
+
+
+def coq_obs(snap, reg, tab):
+    """snap: list of agent snapshots (one state).  alias classes are numbered per state, value classes per case."""
+    ptrs = [s[2] for ag in snap for s in ag["slots"]]
+    alias = classes([tuple(p) for p in ptrs])
+    vals = [tab.val(s[3]) for ag in snap for s in ag["slots"]]
+    ags = "; ".join(coq_aobs(ag, reg, tab) for ag in snap)
+    return f"(mkObs {_nl(alias)} {_nl(vals)} [{ags}])"
+
+
+def coq_world(snap, reg, tab, regterm, nvals_total):
+    """initial world: locations = alias classes of the real initial population, contents = value classes"""
+    ptrs = [tuple(s[2]) for ag in snap for s in ag["slots"]]
+    alias = classes(ptrs)
+    vals = [tab.val(s[3]) for ag in snap for s in ag["slots"]]
+    heap = {}
+    for l, v in zip(alias, vals):
+        heap.setdefault(l, v)
+    pos = 0
+    agents = []
+    for ag in snap:
+        n = len(ag["slots"])
+        agents.append(coq_agent(ag, reg, tab, alias[pos:pos + n], regterm))
+        pos += n
+    nxt = (max(alias) + 1) if alias else 0
+    hl = "; ".join(f"({l}, {v})" for l, v in sorted(heap.items()))
+    return f"(mkWorld (mkStore {nxt} {nvals_total + 1} (heap_of [{hl}])) [{'; '.join(agents)}])"
